@@ -15,7 +15,7 @@ from typing import Dict, Iterable, List, Optional, Set, Tuple
 from . import q
 from .cfg import Node
 from .model import AnalysisError, FuncInfo, Repo
-from .x_taint import Guard, flow_taint, regex_guard, regex_cleaner, expr_tainted
+from .x_taint import Guard, flow_taint, regex_guard, regex_cleaner, expr_tainted, HelperSummaries
 
 WEB = "tornado/web.py"
 NUMERIC = {"int", "float", "bool", "None"}
@@ -204,7 +204,8 @@ def analyse(repo: Repo, forbidden: Iterable[int], sanitizers=("format_timestamp"
     cands = candidate_loops(repo, fi)
     sources = text_params(fi)
     # pass 1: which candidate loops clean their value variable on every iteration?
-    st1 = flow_taint(fi, sources, sanitizers=sanitizers, clean_on_edge=regex_cleaner(repo, fi, forbidden, _absent_cleaner))
+    hs = HelperSummaries(repo, fi, lambda h: regex_cleaner(repo, h, forbidden, _absent_cleaner), sanitizers)
+    st1 = flow_taint(fi, sources, sanitizers=sanitizers, clean_on_edge=hs.cleaner(regex_cleaner(repo, fi, forbidden, _absent_cleaner)), on_node=hs.on_node, expr_hook=hs.expr_hook)
     heads = {id(n.ast): n for n in fi.cfg.stmt_nodes(lambda n: n.kind == "for")}
     loops = []
     for c in cands:
@@ -225,12 +226,12 @@ def analyse(repo: Repo, forbidden: Iterable[int], sanitizers=("format_timestamp"
                 out.append(l.covers_kwargs)
         return out
 
-    states = flow_taint(fi, sources, sanitizers=sanitizers, clean_on_edge=regex_cleaner(repo, fi, forbidden, extra))
+    states = flow_taint(fi, sources, sanitizers=sanitizers, clean_on_edge=hs.cleaner(regex_cleaner(repo, fi, forbidden, extra)), on_node=hs.on_node, expr_hook=hs.expr_hook)
     sinks = morsel_sinks(fi)
     for s in sinks:
         for tainted in states.get(s.node.id, []):
-            if expr_tainted(s.key, tainted, sanitizers):
+            if expr_tainted(s.key, tainted, sanitizers, (), hs.expr_hook):
                 s.key_tainted = True
-            if expr_tainted(s.value, tainted, sanitizers):
+            if expr_tainted(s.value, tainted, sanitizers, (), hs.expr_hook):
                 s.value_tainted = True
     return fi, sinks, loops
